@@ -37,6 +37,13 @@ def points(tier):
     for lat in (np.pi / 2 - 1e-7, -np.pi / 2 + 1e-7, 1.2, -1.2, 0.0):
         for lon in (0.0, 1e-9, 2 * np.pi - 1e-9, np.pi, 3 * np.pi / 2, np.pi / 2):
             out.append(("edge", lon, lat))
+    # just outside the 1-degree polar caps, close to the meridians where four level-1 tiles meet (the pixel
+    # search is most anisotropic there)
+    for dlat in (1.01, 1.03, 1.1, 1.2, 1.35, 1.52, 2.0, 3.0):
+        for sgn in (1, -1):
+            for k in range(4):
+                for off in (-0.05, -0.02, -0.005, 0.005, 0.02, 0.04):
+                    out.append(("nearpole", (k * np.pi / 2 + off) % (2 * np.pi), sgn * (np.pi / 2 - np.radians(dlat))))
     return out
 
 
@@ -174,6 +181,9 @@ def _work(job):
         else:
             pd = pix if sel in (0, 2) else [3]
         deep = ((14, 23) if sel == 1 else (20, 24)) if (tier == "thorough" or sel in (1, 3)) else ()
+        if kind == "nearpole":
+            check_point(kind, lon, lat, [3], [2, 3, 4] if (tier == "thorough" or sel != 3) else [3], planetary, part, ())
+            continue
         check_point(kind, lon, lat, depths, pd, planetary, part, deep)
         if k == 3:
             part.sample({"lon": lon, "lat": lat, "kind": kind, "coordsys": "planetary" if planetary else "astronomical", "depths": depths})
@@ -184,7 +194,7 @@ def run(tier, seed):
     rep = Report(PROP, tier, seed, "exploration")
     rep.rule = (
         "every vertex of the level-%d TOAST lattice (corners, edge midpoints, centres of coarser tiles: edges, diamond, seam, poles) + a 24x13 "
-        "grid + near-pole/seam points, each at 4 longitude shifts, depths 0..%d, both coordinate systems; pixel clause at depths 1,3,6 for "
+        "grid + near-pole/seam points + 384 points 1-3 degrees from the poles near the quadrant meridians (pixel clause at depths 2-4), each at 4 longitude shifts, depths 0..%d, both coordinate systems; pixel clause at depths 1,3,6 for "
         "points >= 1 degree from the poles; deep descents to depth 14/23 or 20/24 for half of the points (containment to 1e-3 tile widths plus the double-precision resolution 8 ulp / width of a tile side); non-trivial = lattice/edge point or shifted longitude"
         % (4 if tier == "quick" else 6, 6 if tier == "quick" else 8)
     )
